@@ -4,6 +4,7 @@ Oracle: the reduction applied by numpy to each generating row alone."""
 import numpy as np
 from ..core import CTX, attempt, held, violated, undefined, same_array, short
 from .. import gen, contracts
+from . import c02
 
 PROP = "C05"
 RULE = ("case = (row lengths, dtype, flat values, reduction name, spelling: method / np.<f> / ufunc.reduce / axis=None / keepdims); "
@@ -23,7 +24,7 @@ NAMED = ["sum", "prod", "any", "all", "max", "min", "mean", "argmax", "argmin"]
 NEEDS_NONEMPTY = {"max", "min", "mean", "argmax", "argmin", "maximum", "minimum"}
 UFUNCS = ["add", "multiply", "logical_and", "logical_or", "logical_xor", "bitwise_and", "bitwise_or", "bitwise_xor", "maximum", "minimum"]
 MODES = ["method", "np", "ufunc.reduce", "axisNone", "keepdims", "np-keepdims", "ufunc-keepdims", "axis1"]
-FLOOR_TAGS = ["mode:" + m for m in MODES] + ["f:" + f for f in NAMED + UFUNCS] + ["kind:b", "kind:i", "kind:u", "kind:f", "norows", "allempty", "e-first", "e-last", "e-mid", "e-consec", "e-none", "trailing-run"]
+FLOOR_TAGS = ["recv:" + r for r in c02.RECVS] + ["mode:" + m for m in MODES] + ["f:" + f for f in NAMED + UFUNCS] + ["kind:b", "kind:i", "kind:u", "kind:f", "norows", "allempty", "e-first", "e-last", "e-mid", "e-consec", "e-none", "trailing-run"]
 FLOOR_MONITORS = ["c05:compare", "c05:identity-for-empty-row", "inv:ragged"]
 N_RANDOM = {"quick": 36000, "thorough": 500000}
 
@@ -32,8 +33,8 @@ def setup(lib):
     contracts.attach(lib, which=("ragged",))
 
 
-def mk_case(lens, dtype, vals, mode, name, vclass="small"):
-    return {"lens": list(lens), "dtype": np.dtype(dtype).name, "vals": vals, "mode": mode, "name": name, "vclass": vclass}
+def mk_case(lens, dtype, vals, mode, name, vclass="small", recv="fresh"):
+    return {"lens": list(lens), "dtype": np.dtype(dtype).name, "vals": vals, "mode": mode, "name": name, "vclass": vclass, "recv": recv}
 
 
 def run(case):
@@ -43,17 +44,23 @@ def run(case):
     n, tot = len(lens), sum(lens)
     flat = np.array(case["vals"], dtype=dt)
     rows = gen.split_rows(flat, lens)
-    ra = RA(flat.copy(), list(lens))
-    tags = ["mode:" + mode, "f:" + name, "kind:" + dt.kind, "v:" + case["vclass"]] + gen.empty_placement(lens)
+    recv = case.get("recv", "fresh")
+    ra, _parent = c02.build_receiver(recv, flat, lens)     # the reduction is the first thing that touches an unmaterialised receiver
+    tags = ["mode:" + mode, "f:" + name, "kind:" + dt.kind, "v:" + case["vclass"], "recv:" + recv] + gen.empty_placement(lens)
     if len(lens) >= 2 and lens[-1] == 0 and lens[-2] == 0:
         tags.append("trailing-run")
     is_uf = mode.startswith("ufunc")
     f_np = getattr(np, name)
     per_row = (lambda r: f_np.reduce(r)) if is_uf else (lambda r: f_np(r))
+    f_flat = f_np
+    if name == "mean" and dt.kind in "iub":
+        # exact oracle: the rational mean of the python integers (numpy's own float64 accumulation depends on the summation order for huge values)
+        per_row = lambda r: (float(sum(int(x) for x in r.tolist())) / len(r)) if len(r) else float("nan")
+        f_flat = per_row
     nontrivial = n >= 2 and (0 in lens or tot >= 2)
 
     if mode == "axisNone":
-        o = attempt(f_np, flat)
+        o = attempt(f_flat, flat)
         a = attempt(lambda: getattr(ra, name)()) if len(case["vals"]) % 2 == 0 else attempt(lambda: f_np(ra))
         if not o.ok:
             return undefined("numpy raises for the flat reduction: %r" % o, tags)
@@ -109,8 +116,16 @@ def compare_values(g, e, case, tags, nontrivial, rows, mode):
     if g.dtype == object:
         return violated("%s returned an object array %s" % (desc, short(g)), tags)
     if name == "mean":
-        rtol = 1e-6 if case["dtype"] == "float32" else 1e-12
-        ok = g.shape == e.shape and np.allclose(g.astype(np.float64), e.astype(np.float64), rtol=rtol, atol=0, equal_nan=True)
+        rtol = 1e-6 if case["dtype"] == "float32" else (1e-9 if np.dtype(case["dtype"]).kind in "iub" else 1e-12)
+        # the error bound is relative to the magnitude of the *terms* (cancellation among huge integers is numpy's own inexactness)
+        mags = np.array([float(np.mean(np.abs(r.astype(np.float64)))) if len(r) else 0.0 for r in rows])
+        scale = (mags[[i for i in range(len(rows)) if len(rows[i])]] if mode != "no axis" else np.array(float(np.mean(np.abs(np.concatenate(rows).astype(np.float64)))) if sum(len(r) for r in rows) else 0.0))
+        try:
+            atol = rtol * np.asarray(scale, dtype=np.float64).reshape(np.asarray(e).shape)
+        except Exception:
+            atol = 0.0
+        ge, ee = g.astype(np.float64), e.astype(np.float64)
+        ok = g.shape == e.shape and bool(np.all((np.abs(ge - ee) <= atol + rtol * np.abs(ee)) | (np.isnan(ge) & np.isnan(ee)) | (ge == ee)))
     else:
         ok = same_array(g, e, dtype=False)
     if not ok:
@@ -133,12 +148,12 @@ def _vals(rng, dtype, n, vclass, name):
                 v = [float("inf") if x != x else x for x in v]
             return v
         return gen.values(rng, dtype, n, "small").tolist()
-    if name == "mean":
-        vclass = "small"   # the float64 sum of huge integers depends on the summation order
+    if name == "mean" and k == "f":
+        vclass = "small"   # float sums depend on the summation order; integer means are judged against the exact rational mean
     return gen.values(rng, dtype, n, vclass if vclass != "nonfinite" else "extreme").tolist()
 
 
-def gen_case(rng, lens, dtype, vclass, mode=None, name=None):
+def gen_case(rng, lens, dtype, vclass, mode=None, name=None, recv="fresh"):
     mode = mode or rng.choice(MODES)
     if name is None:
         if mode.startswith("ufunc"):
@@ -147,7 +162,7 @@ def gen_case(rng, lens, dtype, vclass, mode=None, name=None):
             name = rng.choice(["sum", "prod", "any", "all", "max", "min", "mean"])
         else:
             name = rng.choice(NAMED)
-    return mk_case(lens, dtype, _vals(rng, dtype, sum(lens), vclass, name), mode, name, vclass)
+    return mk_case(lens, dtype, _vals(rng, dtype, sum(lens), vclass, name), mode, name, vclass, recv)
 
 
 def directed():
@@ -166,6 +181,17 @@ def directed():
             yield gen_case(rng, lens, dtype, "small", "axis1", "sum")
             for name in ["sum", "prod", "any", "all", "max", "min", "mean"]:
                 yield gen_case(rng, lens, dtype, "small", "axisNone", name)
+    # reductions applied directly to unmaterialised selections (empty rows at the end of the *selection*, not of the parent)
+    for recv in c02.RECVS[1:]:
+        for lens in ([2, 0, 3, 0], [0, 0, 4], [3, 1, 0, 0, 0], [1, 2, 3]):
+            for name in NAMED:
+                yield gen_case(rng, lens, "int64", "small", "method", name, recv)
+                yield gen_case(rng, lens, "float64", "small", "np", name, recv)
+            for name in UFUNCS:
+                yield gen_case(rng, lens, "uint8", "small", "ufunc.reduce", name, recv)
+    for dtype in ["int64", "uint64", "int32"]:
+        for mode in ["method", "np", "keepdims", "axisNone"]:
+            yield gen_case(rng, [3, 0, 4, 2], dtype, "extreme", mode, "mean")
     # wrap-around and non-finite values
     for dtype in ["int8", "uint8", "int16", "int64", "uint64"]:
         for name in ["sum", "prod", "max", "min", "argmax", "argmin"]:
@@ -179,7 +205,7 @@ def random_case(rng, tier):
     lens, _ = gen.length_vector(rng, tier)
     dtype = rng.choice(gen.DT_ALL)
     vclass = rng.choice(["small", "small", "extreme", "nonfinite"])
-    return gen_case(rng, lens, dtype, vclass)
+    return gen_case(rng, lens, dtype, vclass, recv=rng.choice(c02.RECVS) if rng.random() < 0.35 else "fresh")
 
 
 def classify(case, res):
